@@ -9,15 +9,17 @@
 //@ rewrite RUNS "let mut dists = Array1::zeros(n_samples);" => "let mut dists = DistsTok::zeros(n_samples);"
 //@ rewrite RUNS "for _ in 0..n_runs {" => "for run in 0..n_runs {"
 //@ drop RUNS from "let mut centroids =" through "&mut rng);" as "            let mut centroids = self.init_run_abs(run);   /* initialiser call (float / RNG code), abstracted: the start point of this run */"
-//@ drop RUNS from "update_memberships_and_dists(" through "                );" as "                update_memberships_and_dists_abs(&centroids, &mut memberships, &mut dists);   /* rayon assignment step, abstracted by contract */"
 //@ rewrite RUNS "compute_centroids(&centroids, &observations, &memberships)" => "compute_centroids_abs(&centroids, &memberships)"
 //@ drop RUNS from "let distance = self" through ".distance(centroids.view(), new_centroids.view());" as "                let distance = centroid_shift_abs(&centroids, &new_centroids);   /* dist_fn.distance(old, new), abstracted */"
+//@ rewrite RUNS "update_memberships_and_dists(" => "update_memberships_and_dists_abs(   /* rayon assignment step, abstracted by contract */"
+//@ rewrite RUNS "self.dist_fn()," => "/* self.dist_fn(), */"
+//@ rewrite RUNS "&observations," => "/* &observations, */"
 //@ rewrite RUNS "distance < self.tolerance()" => "self.below_tolerance_abs(&distance)"
 //@ rewrite RUNS "let inertia = loop {" => "let mut inertia = FTok::zero(); loop   /* `let inertia = loop { .. break v; }` written with an explicit variable */ {"
 //@ rewrite RUNS "break dists.sum();" => "inertia = dists.sum_abs(); break;"
 //@ rewrite RUNS "inertia < min_inertia" => "inertia.lt_abs(&min_inertia)"
 //@ insert RUNS before-brace "for run in 0..n_runs " : invariant self.max_iter >= 1, best_centroids.is_some() ==> ok_result(best_centroids.unwrap().0.id@, min_inertia.of@, self.max_iter as int) && best_centroids.unwrap().0.id@.0 < run && best_centroids.unwrap().1.of@ == min_inertia.of@, best_centroids.is_none() ==> min_inertia.of@ == (-1int, -1int), run > 0 ==> memberships.of@.0 == run - 1,
-//@ insert RUNS before-brace "loop   /* `let inertia" : invariant_except_break self.max_iter >= 1, n_iter < self.max_iter, centroids.id@ == (run as int, n_iter as int), (forall|j: int| 1 <= j <= n_iter ==> !spec_converged(run as int, j)), ensures centroids.id@.0 == run, 1 <= centroids.id@.1 <= self.max_iter, centroids.id@.1 == self.max_iter || spec_converged(run as int, centroids.id@.1), (forall|j: int| 1 <= j < centroids.id@.1 ==> !spec_converged(run as int, j)), inertia.of@ == (run as int, centroids.id@.1 - 1), memberships.of@ == (run as int, centroids.id@.1 - 1), decreases self.max_iter - n_iter,
+//@ insert RUNS before-brace "loop   /* `let inertia" : invariant_except_break self.max_iter >= 1, n_iter < self.max_iter, centroids.id@ == (run as int, n_iter as int), (forall|j: int| 1 <= j <= n_iter ==> !spec_converged(run as int, j)), ensures centroids.id@.0 == run, 1 <= centroids.id@.1 <= self.max_iter, centroids.id@.1 == self.max_iter || spec_converged(run as int, centroids.id@.1), (forall|j: int| 1 <= j < centroids.id@.1 ==> !spec_converged(run as int, j)), inertia.of@ == centroids.id@, memberships.of@ == centroids.id@, decreases self.max_iter - n_iter,
 //@ extract FINAL from algorithms/linfa-clustering/src/k_means/algorithm.rs anchor "match best_centroids {" block
 //@ drop FINAL from "let mut cluster_count = Array1::zeros(self.n_clusters());" through ".for_each(|&c| cluster_count[c] += F::one());" as "                let cluster_count = memberships.count_per_cluster_abs();   /* counts the entries of `memberships` per cluster index */"
 //@ rewrite FINAL "Ok(KMeans {" => "Ok(KMeansV {"
@@ -93,7 +95,7 @@ pub open spec fn ok_result(cent: (int, int), inertia_of: (int, int), budget: int
     0 <= cent.0 && 1 <= cent.1 <= budget
     && (cent.1 == budget || spec_converged(cent.0, cent.1))
     && (forall|j: int| 1 <= j < cent.1 ==> !spec_converged(cent.0, j))
-    && inertia_of == (cent.0, cent.1 - 1)
+    && inertia_of == cent          // C09: "the reported inertia and per-cluster counts describe the returned centroids"
 }
 
 pub struct ParamsV { pub max_iter: u64, pub runs: usize, pub nclusters: usize }
